@@ -44,6 +44,7 @@ pub mod c19;
 pub mod c20;
 pub mod c20_sound;
 pub mod c07;
+pub mod c07_vsock;
 pub mod replay;
 
 pub use engine::chooser::{choose, deviate};
